@@ -22,6 +22,21 @@ ALSO = {
            "of an object equals the first pass of a fresh object).",
     "C07": "torch draws with generator=self.<attr> count as uncontrolled when set_rng does not overwrite that attribute (a lazily "
            "derived generator is never invalidated by a re-injection).",
+    "C08": "a wrapper that stores a seed and applies owned transforms constructs its generator in a method that receives the index "
+           "(a generator bound at construction or at worker start does not make sample i a function of (seed, i)).",
+    "C09": "a generator kept in an attribute of a dataset layer and drawn from per sample is re-assigned by that layer's worker hook.",
+    "C10": "random partners are drawn as a permutation (the per-sample path scales partner rows in place); no class-level container "
+           "shared by all instances receives values that depend on instance attributes its key does not depend on.",
+    "C11": "to_one_hot_vector / to_one_hot_matrix return a tensor built in the call, never part of a module-level or memoised object "
+           "(the label is mixed in place).",
+    "C12": "every rank split - also one on a fast path - is followed by the cut to len(self) before its yield; the rank / world-size "
+           "helpers are not memoised.",
+    "C13": "__iter__ consumes no iterator that was created outside it and kept on the sampler; the bulk label readers store nothing "
+           "on the dataset they read.",
+    "C14": "image extents passed to package functions keep their axis: the (width, height) of get_image_size - also splatted - and "
+           "names bound from them meet parameters of the same unit.",
+    "C18": "in the per-field loop of the padding collator no value computed from one field's data survives into the collation of a "
+           "later field.",
 }
 
 CLAIMS = {
